@@ -45,6 +45,19 @@ let pout = function
   | OKList (k, l) -> "K" ^ ps k ^ "=" ^ pl "+" l
   | OLists l -> "M" ^ cat "/" (fun (k, l) -> ps k ^ "=" ^ pl "+" l) l
   | OErr e -> "E" ^ (match e with KeyError -> "KeyError" | IndexError -> "IndexError" | TypeError -> "TypeError" | ValueError -> "ValueError")
+(* a direct edit of response.headers while the view object is kept: the header changes, the held view does not *)
+let held name t = match split ':' t with
+  | ["hh"; v] -> Some (fun h -> fst (hd_set h name (VStr (s_of v))))
+  | ["hhd"] -> Some (fun h -> hd_del_key h name)
+  | _ -> None
+let rec run_held name step obs after parse st ops = match ops with
+  | [] -> []
+  | o :: r ->
+      (match held name o with
+       | Some f -> let st' = (f (fst st), snd st) in (ONone :: obs st') :: run_held name step obs after parse (after st') r
+       | None -> let (st', rs) = step st (parse o) in
+                 ((match rs with Ok x -> x | Err e -> OErr e) :: obs st') :: run_held name step obs after parse (after st') r)
+let id x = x
 let pstep l = String.concat "|" (List.map pout l)
 let pruns first l = String.concat " " (pstep first :: List.map pstep l)
 let pcd d = cat "/" (fun (k, v) -> ps k ^ "=" ^ (match v with None -> "n" | Some s -> "s" ^ ps s)) d
@@ -52,23 +65,23 @@ let () = iter_lines (fun line ->
   match fields line with
   | "sv" :: name :: init :: ops ->
       let n = s_of name and h = kvs s_of init in let st = (h, sv_parse h n) in
-      pruns (sv_obs n st) (sv_run n st (List.map svop ops))
+      pruns (sv_obs n st) (run_held n (sv_step n) (sv_obs n) id svop st ops)
   | "cc" :: init :: ops ->
       let h = kvs s_of init in
       (match cc_parse h with
        | None -> "unsupported"
-       | Some d -> pruns (ccr_obs (h, d)) (ccr_run (h, d) (List.map ccop ops)))
+       | Some d -> pruns (ccr_obs (h, d)) (run_held cACHE_CONTROL ccr_step ccr_obs id ccop (h, d) ops))
   | "csp" :: init :: ops ->
       let h = kvs s_of init in let st = (h, csp_parse_h h) in
-      pruns (cspr_obs st) (cspr_run st (List.map cspop ops))
+      pruns (cspr_obs st) (run_held cSP_NAME cspr_step cspr_obs id cspop st ops)
   | "cr" :: init :: ops ->
       let h = kvs s_of init in let st = cr_read h in
-      pruns (crr_obs st) (crr_run (crr_after_obs st) (List.map crop ops))
+      pruns (crr_obs st) (run_held cONTENT_RANGE crr_step crr_obs crr_after_obs crop (crr_after_obs st) ops)
   | "wa" :: init :: ops ->
       let h = kvs s_of init in
       (match wa_read h with
        | None -> "unsupported"
-       | Some w -> pruns (war_obs (h, w)) (war_run (h, w) (List.map waop ops)))
+       | Some w -> pruns (war_obs (h, w)) (run_held wWW_AUTH war_step war_obs id waop (h, w) ops))
   | ["pl"; s] -> "L" ^ pl "/" (parse_list_header (s_of s))
   | ["pd"; s] -> (match parse_dict_header (s_of s) with None -> "unsupported" | Some d -> pcd d)
   | ["dl"; l] -> "S" ^ ps (dump_list (lst '/' l))
